@@ -123,7 +123,7 @@ def ref_defects(coin, f):
     return d
 
 
-def oracle(op: str, out: str):
+def _oracle(op: str, out: str):
     a = op.split(" ")
     k = a[0]
     coin = a[1]
@@ -134,6 +134,8 @@ def oracle(op: str, out: str):
         d = ref_defects(coin, f)
         if d and out == "ok":
             return "accepted although: " + ", ".join(d)
+        if d and out.startswith("err raised:"):
+            return "a listed defect (%s) left check() as %s instead of ValidationFailureError" % (", ".join(d), out[11:])
         if not d and out.startswith("err") and not out.startswith("err raised:"):
             if txlib.fields_in_range(f) and len(txlib.ref_wire(f)) <= REF_MAX_SIZE:
                 return "rejected (%s) although no listed defect and total size <= 1,000,000" % out[4:]
@@ -146,6 +148,15 @@ def oracle(op: str, out: str):
         if ref_is_coinbase(f) and out != "ok 0":
             return "coinbase transaction counted as having unsigned inputs"
     return None
+
+
+def oracle(op: str, out: str):
+    """the property evaluated on the implementation alone; an exception escaping the implementation while a round trip is
+    evaluated is a failure of the property (every direct call is on inputs the property covers)"""
+    try:
+        return _oracle(op, out)
+    except Exception as e:  # noqa: BLE001
+        return "the implementation raised %s while the property was evaluated on it" % type(e).__name__
 
 
 def trivial(op: str) -> bool:
